@@ -100,6 +100,10 @@ class Run(object):
                         run.soft.add(o.rule)
                         run.note(o.rule, o.key, 'the syntactic rule does not follow this spelling (%s); the clause is decided by %s, which passes' % (o.detail[:160], by))
                 run.obs[self_.start:] = keep
+                # the clause is decided by `by`, whose own cases guard against a vacuous pass: the instance floors of the corroborating rules
+                # (how many sites of the pinned spelling they recognise) are not enforced while it passes
+                for r in rules:
+                    run.soft.add(r)
                 if et is not None and issubclass(et, AnalysisError):
                     # the rules could not follow this spelling at all: their instance floors cannot be met and are not enforced
                     for o in inside:
